@@ -23,3 +23,13 @@ package types
 //@   ensures[C01.uadv.nonneg] err == nil && val(old(*valueToUpdate)) >= 0 && !isnil(old(*valueToUpdate)) ==> val(*valueToUpdate) >= 0 && !isnil(*valueToUpdate)
 //@   ensures[C01.uadv.noop]   err == nil && (isnil(old(*changeValue)) || val(old(*changeValue)) == 0) ==> *valueToUpdate == old(*valueToUpdate)
 //@   ensures[C09.uadv.atomic] err != nil && valueToUpdate != nil ==> *valueToUpdate == old(*valueToUpdate)
+
+// C18 (every reachable state exports a genesis that validates; an unreachable one does not): an operator's asset entry
+// is accepted exactly when its asset is registered, its pool and pending amounts fit the asset's total staking, and its
+// own SHARE does not exceed the pool's total SHARE (amounts shrink by slashing, shares do not).
+//@ func (GenesisState).ValidateOperatorAssets$1$1
+//@   names _, asset
+//@   flag pure=Wrapf
+//@   ensures[C18.voa.accept] (err == nil) <==> (has(tokensTotalStaking, asset.AssetID) &&
+//@        val(asset.Info.TotalAmount) + val(asset.Info.PendingUndelegationAmount) <= val(tokensTotalStaking[asset.AssetID]) &&
+//@        val(asset.Info.OperatorShare) <= val(asset.Info.TotalShare))
